@@ -221,6 +221,15 @@ __attribute__((noinline)) static void warm_up_process()
     catch (const std::out_of_range&) {
     }
     {
+        // libstdc++'s pool of mutexes behind std::atomic_load/atomic_store(shared_ptr*) is a
+        // function-local static: initialise it now, not inside some run
+        std::shared_ptr<int> sp = std::make_shared<int>(1);
+        std::shared_ptr<int> q = std::atomic_load(&sp);
+        std::atomic_store(&sp, q);
+        std::shared_ptr<int> e = q;
+        (void)std::atomic_compare_exchange_strong(&sp, &e, q);
+    }
+    {
         std::promise<int> p;
         auto f = p.get_future();
         p.set_value(1);
